@@ -189,12 +189,14 @@ Qed.
 
 Definition contents (h : heap) (off : list nat) : list (uid * ind) := map (fun o => (o, cont h o)) off.
 
-Record var_post (h0 : heap) (inp : list nat) (h : heap) (off : list nat) : Prop := mk_var_post {
+Record var_post (h0 : heap) (inp : list nat) (h : heap) (lg : list V.event) (off : list nat) : Prop := mk_var_post {
   vp_wf : V.wf_heap h;
   vp_ni : V.ni h0 <= V.ni h;
   vp_unt : V.untouched h0 inp h;                 (* C02 parents_untouched *)
   vp_ind : V.independent h0 h off;               (* C02 offspring_independent *)
+  vp_varied : V.varied_invalid h lg off;         (* C02 varied_invalid *)
   vp_valid : forall o f, In o off -> V.fit_of h o = Some f ->   (* C02 valid_is_parent_copy *)
+     ~ V.varied lg o /\
      exists p, In p inp /\ V.geno (V.ind_at h o) = V.geno (V.ind_at h0 p) /\ V.fit_of h0 p = Some f }.
 
 Lemma shape_wf (h0 h : heap) : V.wf_heap h0 -> VP.shape G F h0 h -> V.wf_heap h.
@@ -208,7 +210,7 @@ Lemma var_and_post (h0 : heap) inp cxpb mutpb d k0 s' off :
   (forall k x y, V.ret_distinct (V.ma_r1 (mate_o k x y)) (V.ma_r2 (mate_o k x y))) ->
   V.wf_heap h0 -> V.pop_ok h0 inp ->
   V.var_and ltb (mate_at mate_o k0) (mut_at mut_o k0) cxpb mutpb (V.start h0 d) inp = (s', inr off) ->
-  var_post h0 inp (V.hp s') off /\ length off = length inp.
+  var_post h0 inp (V.hp s') (V.lg s') off /\ length off = length inp.
 Proof.
   intros Hd W P H.
   assert (D : forall k x y, V.ret_distinct (V.ma_r1 (mate_at mate_o k0 k x y)) (V.ma_r2 (mate_at mate_o k0 k x y)))
@@ -220,17 +222,18 @@ Proof.
     + exact (VP.sh_ni G F h0 _ Sh).
     + exact (VP.and_parents_untouched G F T ltb _ _ h0 inp W P D cxpb mutpb d s' _ H).
     + exact (VP.and_offspring_independent G F T ltb _ _ h0 inp W P D cxpb mutpb d s' _ H off eq_refl).
+    + exact (VP.and_varied_invalid G F T ltb _ _ h0 inp W P D cxpb mutpb d s' _ H off eq_refl).
     + intros o f Ho Hf.
       destruct (VP.and_valid_is_parent_copy G F T ltb _ _ h0 inp W P D cxpb mutpb d s' _ H off eq_refl o f Ho Hf)
-        as [_ [p [Hp [_ [Hg Hf0]]]]].
-      exists p. auto.
+        as [Nv [p [Hp [_ [Hg Hf0]]]]].
+      split; [exact Nv|]. exists p. auto.
   - exact (VP.and_offspring_count G F T ltb _ _ h0 inp W P D cxpb mutpb d s' _ H off eq_refl).
 Qed.
 
 Lemma var_or_post (h0 : heap) inp lambda_ cxpb mutpb d k0 s' off :
   V.wf_heap h0 -> V.pop_ok h0 inp ->
   V.var_or ltb leb add one (mate_at mate_o k0) (mut_at mut_o k0) lambda_ cxpb mutpb (V.start h0 d) inp = (s', inr off) ->
-  var_post h0 inp (V.hp s') off /\ length off = Z.to_nat lambda_.
+  var_post h0 inp (V.hp s') (V.lg s') off /\ length off = Z.to_nat lambda_.
 Proof.
   intros W P H.
   destruct (VP.var_or_inv G F T ltb leb add one _ _ h0 inp W P lambda_ cxpb mutpb d s' _ H) as [Sh _].
@@ -240,10 +243,11 @@ Proof.
     + exact (VP.sh_ni G F h0 _ Sh).
     + exact (VP.or_parents_untouched G F T ltb _ _ h0 inp W P leb add one lambda_ cxpb mutpb d s' _ H).
     + exact (VP.or_offspring_independent G F T ltb _ _ h0 inp W P leb add one lambda_ cxpb mutpb d s' _ H off eq_refl).
+    + exact (VP.or_varied_invalid G F T ltb _ _ h0 inp W P leb add one lambda_ cxpb mutpb d s' _ H off eq_refl).
     + intros o f Ho Hf.
       destruct (VP.or_valid_is_parent_copy G F T ltb _ _ h0 inp W P leb add one lambda_ cxpb mutpb d s' _ H off eq_refl o f Ho Hf)
-        as [_ [p [Hp [_ [Hg Hf0]]]]].
-      exists p. auto.
+        as [Nv [p [Hp [_ [Hg Hf0]]]]].
+      split; [exact Nv|]. exists p. auto.
   - exact (VP.or_offspring_count G F T ltb _ _ h0 inp W P leb add one lambda_ cxpb mutpb d s' _ H off eq_refl).
 Qed.
 
@@ -273,14 +277,14 @@ Proof.
 Qed.
 
 (* the C02 post-condition establishes the variation contract of the loop model and re-establishes Rel *)
-Lemma var_post_sim (h0 : heap) (st : store) inp (h : heap) off :
-  Rel h0 st -> Forall (live st) inp -> var_post h0 inp h off ->
+Lemma var_post_sim (h0 : heap) (st : store) inp (h : heap) lg off :
+  Rel h0 st -> Forall (live st) inp -> var_post h0 inp h lg off ->
   off_ok st inp (contents h off) /\ off_invalid_distinct (contents h off) /\
   Rel h (add_objs st (contents h off)) /\
   Forall (live (add_objs st (contents h off))) off /\
   (forall u, live st u -> live (add_objs st (contents h off)) u).
 Proof.
-  intros R Linp [Wf Ni Unt [Nd [Hfresh [Hold Hnew]]] Hvalid].
+  intros R Linp [Wf Ni Unt [Nd [Hfresh [Hold Hnew]]] _ Hvalid].
   assert (Fresh : forall o, In o off -> st o = None).
   { intros o Ho. destruct (st o) as [i|] eqn:E; [|reflexivity].
     destruct (rel_dom h0 st R o i E) as [L _]. destruct (Hfresh o Ho) as [[L' _] _]. lia. }
@@ -289,7 +293,7 @@ Proof.
     - intros u i I. apply contents_in in I. left. apply Fresh. exact (proj1 I).
     - intros u i i' I I'. apply contents_in in I. apply contents_in in I'. destruct I as [_ ->], I' as [_ ->]. reflexivity.
     - intros u i f I Hf. apply contents_in in I. destruct I as [Hu ->]. cbn in Hf.
-      destruct (Hvalid u f Hu Hf) as [p [Hp [Hg Hf0]]].
+      destruct (Hvalid u f Hu Hf) as [_ [p [Hp [Hg Hf0]]]].
       rewrite Forall_forall in Linp. destruct (live_some st p (Linp p Hp)) as [ip Ep].
       destruct (rel_dom h0 st R p ip Ep) as [_ ->].
       exists p, (cont h0 p). cbn. auto. }
@@ -329,6 +333,228 @@ Proof.
   - apply Forall_forall. intros u Hu. unfold live. rewrite (Look u Hu). discriminate.
   - intros u Lu. destruct (live_some st u Lu) as [i E]. unfold live.
     rewrite (off_ok_extends st inp _ O u i E). discriminate.
+Qed.
+
+(* ------------------------------------------------------------------ *)
+(* one generation of the composed model is one generation of the loop model *)
+
+(* the selection contract: the requested number of positions, all inside the argument list (of length n) *)
+Definition sel_in (n k : nat) (sel : list nat) : Prop := length sel = k /\ Forall (fun i => i < n) sel.
+
+Lemma pop_ok_live h st l : Rel h st -> Forall (live st) l -> V.pop_ok h l.
+Proof.
+  intros R L. unfold V.pop_ok. eapply Forall_impl; [|exact L]. intros u Lu.
+  destruct (live_some st u Lu) as [i E]. exact (proj1 (rel_dom h st R u i E)).
+Qed.
+
+Lemma live_incl (st : store) l l' : incl l l' -> Forall (live st) l' -> Forall (live st) l.
+Proof. intros I Fl. apply Forall_forall. intros u Hu. rewrite Forall_forall in Fl. auto. Qed.
+
+(* the answer of the loop model's variation oracle that a call of var_and / var_or amounts to *)
+Definition var_ans (sel : list nat) (s1 : V.st G F T) (off : list nat) : ans :=
+  mkans sel (contents (V.hp s1) off).
+
+Section Distinct.
+(* the hypothesis C02 needs for varAnd: toolbox.mate returns two different objects *)
+Hypothesis mate_distinct : forall k x y, V.ret_distinct (V.ma_r1 (mate_o k x y)) (V.ma_r2 (mate_o k x y)).
+
+Lemma fstep_simple_sim cxpb mutpb gen (fs : fstate) (cs : state) sel fs' :
+  SRel fs cs -> sel_in (length (s_pop cs)) (length (s_pop cs)) sel ->
+  fstep_simple evaluate fle ltb mate_o mut_o cxpb mutpb gen fs sel = FOk fs' ->
+  exists s1 off,
+    call_var_and ltb mate_o mut_o cxpb mutpb fs (select_by (f_pop fs) sel) = (s1, inr off) /\
+    var_post (f_hp fs) (select_by (f_pop fs) sel) (V.hp s1) (V.lg s1) off /\
+    length off = length (f_pop fs) /\
+    ans_ok_simple cs (var_ans sel s1 off) /\ off_invalid_distinct (a_off (var_ans sel s1 off)) /\
+    SRel fs' (step_simple evaluate fle gen cs (var_ans sel s1 off)).
+Proof.
+  intros S [Sl Sr] H. pose proof S as [R Ep Ec El Es Eb Lv].
+  unfold fstep_simple in H.
+  destruct (call_var_and ltb mate_o mut_o cxpb mutpb fs (select_by (f_pop fs) sel)) as [s1 [e0|off]] eqn:Ev;
+    [discriminate|].
+  inversion H; subst fs'; clear H. exists s1, off. split; [reflexivity|].
+  unfold call_var_and in Ev. rewrite Ep in *.
+  assert (Lsel : Forall (live (s_st cs)) (select_by (s_pop cs) sel))
+    by (eapply live_incl; [apply select_by_incl; exact Sr|exact Lv]).
+  destruct (var_and_post _ _ _ _ _ _ _ _ mate_distinct (rel_wf _ _ R) (pop_ok_live _ _ _ R Lsel) Ev) as [VPo Len].
+  destruct (var_post_sim _ _ _ _ _ _ R Lsel VPo) as [O [D [R' [Loff Lext]]]].
+  split; [exact VPo|]. split; [rewrite Len, select_by_length; exact Sl|].
+  split; [|split; [exact D|]].
+  - split; [split; assumption|]. split; [exact O|]. cbn. unfold contents.
+    rewrite map_length, Len, select_by_length. reflexivity.
+  - unfold step_simple, var_ans. cbn [a_off]. rewrite contents_fst. apply ffinish_sim; assumption.
+Qed.
+
+End Distinct.
+
+Lemma fstep_plus_sim mu lambda_ cxpb mutpb gen (fs : fstate) (cs : state) sel fs' :
+  SRel fs cs -> sel_in (length (s_pop cs) + Z.to_nat lambda_) mu sel ->
+  fstep_plus evaluate fle ltb leb add one mate_o mut_o lambda_ cxpb mutpb gen fs sel = FOk fs' ->
+  exists s1 off,
+    call_var_or ltb leb add one mate_o mut_o lambda_ cxpb mutpb fs (f_pop fs) = (s1, inr off) /\
+    var_post (f_hp fs) (f_pop fs) (V.hp s1) (V.lg s1) off /\ length off = Z.to_nat lambda_ /\
+    ans_ok_plus mu (Z.to_nat lambda_) cs (var_ans sel s1 off) /\
+    off_invalid_distinct (a_off (var_ans sel s1 off)) /\
+    SRel fs' (step_plus evaluate fle gen cs (var_ans sel s1 off)).
+Proof.
+  intros S [Sl Sr] H. pose proof S as [R Ep Ec El Es Eb Lv].
+  unfold fstep_plus in H.
+  destruct (call_var_or ltb leb add one mate_o mut_o lambda_ cxpb mutpb fs (f_pop fs)) as [s1 [e0|off]] eqn:Ev;
+    [discriminate|].
+  inversion H; subst fs'; clear H. exists s1, off. split; [reflexivity|].
+  unfold call_var_or in Ev. rewrite Ep in *.
+  destruct (var_or_post _ _ _ _ _ _ _ _ _ (rel_wf _ _ R) (pop_ok_live _ _ _ R Lv) Ev) as [VPo Len].
+  destruct (var_post_sim _ _ _ _ _ _ R Lv VPo) as [O [D [R' [Loff Lext]]]].
+  assert (Sr' : Forall (fun i => i < length (s_pop cs ++ off)) sel).
+  { assert (E : length (s_pop cs ++ off) = length (s_pop cs) + Z.to_nat lambda_) by (rewrite app_length; f_equal; exact Len).
+    rewrite E. exact Sr. }
+  split; [exact VPo|]. split; [exact Len|]. split; [|split; [exact D|]].
+  - split; [exact O|]. cbn. split; [unfold contents; rewrite map_length; exact Len|].
+    rewrite contents_fst. split; assumption.
+  - unfold step_plus, var_ans. cbn [a_off a_sel]. rewrite contents_fst. apply ffinish_sim; try assumption.
+    eapply live_incl; [apply select_by_incl; exact Sr'|].
+    apply Forall_app. split; [|exact Loff]. eapply Forall_impl; [|exact Lv]. exact Lext.
+Qed.
+
+Lemma fstep_comma_sim mu lambda_ cxpb mutpb gen (fs : fstate) (cs : state) sel fs' :
+  SRel fs cs -> sel_in (Z.to_nat lambda_) mu sel ->
+  fstep_comma evaluate fle ltb leb add one mate_o mut_o lambda_ cxpb mutpb gen fs sel = FOk fs' ->
+  exists s1 off,
+    call_var_or ltb leb add one mate_o mut_o lambda_ cxpb mutpb fs (f_pop fs) = (s1, inr off) /\
+    var_post (f_hp fs) (f_pop fs) (V.hp s1) (V.lg s1) off /\ length off = Z.to_nat lambda_ /\
+    ans_ok_comma mu (Z.to_nat lambda_) cs (var_ans sel s1 off) /\
+    off_invalid_distinct (a_off (var_ans sel s1 off)) /\
+    SRel fs' (step_comma evaluate fle gen cs (var_ans sel s1 off)).
+Proof.
+  intros S [Sl Sr] H. pose proof S as [R Ep Ec El Es Eb Lv].
+  unfold fstep_comma in H.
+  destruct (call_var_or ltb leb add one mate_o mut_o lambda_ cxpb mutpb fs (f_pop fs)) as [s1 [e0|off]] eqn:Ev;
+    [discriminate|].
+  inversion H; subst fs'; clear H. exists s1, off. split; [reflexivity|].
+  unfold call_var_or in Ev. rewrite Ep in *.
+  destruct (var_or_post _ _ _ _ _ _ _ _ _ (rel_wf _ _ R) (pop_ok_live _ _ _ R Lv) Ev) as [VPo Len].
+  destruct (var_post_sim _ _ _ _ _ _ R Lv VPo) as [O [D [R' [Loff Lext]]]].
+  assert (Sr' : Forall (fun i => i < length off) sel).
+  { rewrite <- Len in Sr. exact Sr. }
+  split; [exact VPo|]. split; [exact Len|]. split; [|split; [exact D|]].
+  - split; [exact O|]. cbn. split; [unfold contents; rewrite map_length; exact Len|].
+    rewrite contents_fst. split; assumption.
+  - unfold step_comma, var_ans. cbn [a_off a_sel]. rewrite contents_fst. apply ffinish_sim; try assumption.
+    eapply live_incl; [apply select_by_incl; exact Sr'|exact Loff].
+Qed.
+
+(* tools.selBest reads the fitnesses of the members of its argument only *)
+Lemma insert_desc_ext (st st' : store) x l :
+  (forall y, In y (x :: l) -> st y = st' y) -> insert_desc fle st x l = insert_desc fle st' x l.
+Proof.
+  induction l as [|y r IH]; intro H; [reflexivity|]. cbn.
+  unfold fit_lt. rewrite (H x (or_introl eq_refl)), (H y (or_intror (or_introl eq_refl))).
+  rewrite IH; [reflexivity|]. intros z [Hz|Hz]; apply H; [left; exact Hz|right; right; exact Hz].
+Qed.
+
+Lemma insert_desc_incl (st : store) x l z : In z (insert_desc fle st x l) -> z = x \/ In z l.
+Proof.
+  induction l as [|y r IH]; cbn.
+  - intros [E|[]]. left; auto.
+  - destruct (fit_lt fle st x y); cbn.
+    + intros [E|Hz]; [right; left; exact E|]. destruct (IH Hz) as [E|Hr]; [left; exact E|right; right; exact Hr].
+    + intros [E|[E|Hz]]; [left; auto|right; left; exact E|right; right; exact Hz].
+Qed.
+
+Lemma sort_desc_sub (st : store) l z : In z (sort_desc fle st l) -> In z l.
+Proof.
+  induction l as [|x r IH]; [auto|]. intro H.
+  change (In z (insert_desc fle st x (sort_desc fle st r))) in H. apply insert_desc_incl in H.
+  destruct H as [E|H]; [left; auto|right; apply IH; exact H].
+Qed.
+
+Lemma sort_desc_ext (st st' : store) l :
+  (forall u, In u l -> st u = st' u) -> sort_desc fle st l = sort_desc fle st' l.
+Proof.
+  induction l as [|x r IH]; intro H; [reflexivity|].
+  change (insert_desc fle st x (sort_desc fle st r) = insert_desc fle st' x (sort_desc fle st' r)).
+  rewrite <- IH by (intros u Hu; apply H; right; exact Hu).
+  apply insert_desc_ext. intros y [E|Hy]; apply H; [left; exact E|right; eapply sort_desc_sub; exact Hy].
+Qed.
+
+Lemma sel_best_ext (st st' : store) l k :
+  (forall u, In u l -> st u = st' u) -> sel_best fle st l k = sel_best fle st' l k.
+Proof. intro H. unfold sel_best. rewrite (sort_desc_ext st st' l H). reflexivity. Qed.
+
+Lemma sel_best_sub (st : store) l k : incl (sel_best fle st l k) l.
+Proof.
+  intros z Hz. unfold sel_best in Hz. apply (sort_desc_sub st l z).
+  revert Hz. generalize (sort_desc fle st l). intro m. revert k. induction m as [|a m IH]; intros [|k]; cbn; try (intro H0; exact (False_ind _ H0)).
+  intros [E|H]; [left; exact E|right; eapply IH; exact H].
+Qed.
+
+Lemma fstep_plus_best_sim mu lambda_ cxpb mutpb gen (fs : fstate) (cs : state) x fs' :
+  SRel fs cs ->
+  fstep_plus_best evaluate fle ltb leb add one mate_o mut_o mu lambda_ cxpb mutpb gen fs x = FOk fs' ->
+  exists s1 off,
+    call_var_or ltb leb add one mate_o mut_o lambda_ cxpb mutpb fs (f_pop fs) = (s1, inr off) /\
+    off_ok (s_st cs) (s_pop cs) (contents (V.hp s1) off) /\ length off = Z.to_nat lambda_ /\
+    SRel fs' (step_plus_best evaluate fle mu gen cs (var_ans [] s1 off)).
+Proof.
+  intros S H. pose proof S as [R Ep Ec El Es Eb Lv].
+  unfold fstep_plus_best in H.
+  destruct (call_var_or ltb leb add one mate_o mut_o lambda_ cxpb mutpb fs (f_pop fs)) as [s1 [e0|off]] eqn:Ev;
+    [discriminate|].
+  inversion H; subst fs'; clear H. exists s1, off. split; [reflexivity|].
+  unfold call_var_or in Ev. rewrite Ep in *.
+  destruct (var_or_post _ _ _ _ _ _ _ _ _ (rel_wf _ _ R) (pop_ok_live _ _ _ R Lv) Ev) as [VPo Len].
+  destruct (var_post_sim _ _ _ _ _ _ R Lv VPo) as [O [D [R' [Loff Lext]]]].
+  split; [exact O|]. split; [exact Len|].
+  unfold step_plus_best, var_ans. cbn [a_off a_sel]. rewrite contents_fst.
+  set (st1 := add_objs (s_st cs) (contents (V.hp s1) off)) in *.
+  assert (Lall : Forall (live st1) (s_pop cs ++ off)).
+  { apply Forall_app. split; [|exact Loff]. eapply Forall_impl; [|exact Lv]. exact Lext. }
+  rewrite (invalid_of_ext (view (V.hp s1)) st1 off (rel_view_on _ _ off R' Loff)).
+  assert (Linv : Forall (live st1) (invalid_of st1 off)).
+  { eapply live_incl; [apply invalid_of_incl|exact Loff]. }
+  destruct (eval_sim (invalid_of st1 off) _ _ R' Linv) as [R2 _].
+  assert (Lall2 : Forall (live (fst (eval_list evaluate st1 (invalid_of st1 off)))) (s_pop cs ++ off)).
+  { eapply Forall_impl; [|exact Lall]. intros u Hu. apply eval_list_live. exact Hu. }
+  rewrite (sel_best_ext _ _ (s_pop cs ++ off) mu (rel_view_on _ _ _ R2 Lall2)).
+  apply ffinish_sim; try assumption.
+  eapply live_incl; [apply sel_best_sub|exact Lall].
+Qed.
+
+Lemma insert_desc_len (st : store) x l : length (insert_desc fle st x l) = S (length l).
+Proof. induction l as [|y r IH]; cbn; [reflexivity|]. destruct (fit_lt fle st x y); cbn; [rewrite IH|]; reflexivity. Qed.
+
+Lemma sort_desc_len (st : store) l : length (sort_desc fle st l) = length l.
+Proof.
+  induction l as [|x r IH]; [reflexivity|].
+  change (length (insert_desc fle st x (sort_desc fle st r)) = S (length r)). rewrite insert_desc_len, IH. reflexivity.
+Qed.
+
+Lemma ffinish_pop gen (fs : fstate) h1 (d1 : list (V.draw T)) k1 off newpop :
+  f_pop (ffinish evaluate fle gen fs h1 d1 k1 off newpop) = newpop.
+Proof. unfold ffinish. destruct (eval_heap evaluate h1 (invalid_of (view h1) off)). reflexivity. Qed.
+
+(* a generation with tools.selBest is a generation of eaMuPlusLambda for some selection answer *)
+Lemma fstep_plus_best_is_plus mu lambda_ cxpb mutpb gen (fs : fstate) x fs' :
+  fstep_plus_best evaluate fle ltb leb add one mate_o mut_o mu lambda_ cxpb mutpb gen fs x = FOk fs' ->
+  exists sel, fstep_plus evaluate fle ltb leb add one mate_o mut_o lambda_ cxpb mutpb gen fs sel = FOk fs' /\
+              length sel = length (f_pop fs') /\ length (f_pop fs') <= mu /\
+              (exists s1 off, call_var_or ltb leb add one mate_o mut_o lambda_ cxpb mutpb fs (f_pop fs) = (s1, inr off) /\
+                 Forall (fun i => i < length (f_pop fs) + length off) sel /\
+                 length (f_pop fs') = Nat.min mu (length (f_pop fs) + length off)).
+Proof.
+  unfold fstep_plus_best, fstep_plus.
+  destruct (call_var_or ltb leb add one mate_o mut_o lambda_ cxpb mutpb fs (f_pop fs)) as [s1 [e0|off]] eqn:Ev;
+    [discriminate|].
+  set (h2 := fst (eval_heap evaluate (V.hp s1) (invalid_of (view (V.hp s1)) off))).
+  intro H; inversion H; subst fs'; clear H.
+  destruct (incl_select_by (f_pop fs ++ off) (sel_best fle (view h2) (f_pop fs ++ off) mu) (sel_best_sub _ _ _))
+    as [idxs [E Fi]].
+  exists idxs. rewrite <- E.
+  assert (Lb : length (sel_best fle (view h2) (f_pop fs ++ off) mu) = Nat.min mu (length (f_pop fs) + length off)).
+  { unfold sel_best. rewrite firstn_length, sort_desc_len, app_length. reflexivity. }
+  split; [reflexivity|]. rewrite ffinish_pop. split; [rewrite E; symmetry; apply select_by_length|].
+  split; [rewrite Lb; apply Nat.le_min_l|].
+  exists s1, off. split; [reflexivity|]. split; [rewrite <- app_length; exact Fi|exact Lb].
 Qed.
 
 End Compose.
